@@ -48,7 +48,8 @@ def oracle(lib, pop_exp, text, states, wd, tag, strict=False):
         if os.path.exists(p):
             os.remove(p)
     st_arg = ",".join("%d:%s" % (i, s) for i, s in sorted(states.items()))
-    r = farm.drv(lib, ["ws", f, st_arg or "0:C"] + w + (["-s"] if strict else []), cwd=wd, timeout=30)
+    # strict: False = reload in a fresh lenient session, True = in a fresh strict session, "same" = into the session the file was saved from
+    r = farm.drv(lib, ["ws", f, st_arg or "0:C"] + w + (["-same"] if strict == "same" else (["-s"] if strict else [])), cwd=wd, timeout=30)
     probs = []
     try:
         if r["rc"] != 0 or r["json"] is None:
@@ -182,7 +183,7 @@ def cases(draw, schema, cfg):
         choices = ["C", "C", "I", "N"] + (["D", "D"] if inst["id"] not in referenced else [])
         states[inst["id"]] = draw(st.sampled_from(choices))
     return {"pop": pop, "layout": layout, "blanks": [list(b) for b in blanks], "states": states,
-            "strict": draw(st.booleans()), "partial_ids": sorted(partial_ids)}
+            "strict": draw(st.sampled_from([False, True, "same", "same"])), "partial_ids": sorted(partial_ids)}
 
 
 def apply_blanks(pop, blanks):
@@ -214,8 +215,8 @@ def case(ctx, x):
     if nt and len(ev.samples) < 2:
         sample = {"states": {str(k): v for k, v in states.items()}, "file": text[-800:]}
     ev.case(common.chash([c01.pop_canon(ctx, pop), x["blanks"], sorted(states.items())]), nt, classes=classes, sample=sample)
-    strict = bool(x.get("strict"))
-    classes2 = ["reload-strict" if strict else "reload-lenient"]
+    strict = x.get("strict") if x.get("strict") == "same" else bool(x.get("strict"))
+    classes2 = ["reload-into-the-same-session" if strict == "same" else ("reload-strict" if strict else "reload-lenient")]
     if any(states[i] != "I" for i in x.get("partial_ids", []) if i in states):
         classes2.append("partially-filled-saved-as-C/N/D")
     for c_ in classes2:
